@@ -494,12 +494,20 @@ pub fn run(args: &Args, which: &str) -> i32 {
         let mut traces: BTreeSet<(Vec<Option<u64>>, Res, u64)> = BTreeSet::new();
         let mut sample = None;
         let mut count = 0u64;
+        let current: std::sync::Arc<std::sync::Mutex<Option<_>>> = std::sync::Arc::new(std::sync::Mutex::new(None));
+        let cur2 = current.clone();
+        let _g = crate::evidence::watchdog::enter(move || match cur2.lock().unwrap().as_ref() {
+            Some(c) => json!({"engine":"hemc","config": cfg_json(c)}),
+            None => json!({"engine":"hemc"}),
+        });
         rt.block_on(async {
             for &(n, code) in chunks[ci] {
                 let mut cfgs = vec![];
                 grid.expand(n, code, |c| cfgs.push(c));
                 for cfg in &cfgs {
                     count += 1;
+                    *current.lock().unwrap() = Some(cfg.clone());
+                    crate::evidence::watchdog::touch();
                     let obs = run_config(cfg).await;
                     let r = if which_s == "C10" { check_c10(cfg, &obs) } else { check_c11(cfg, &obs) };
                     if cfg.attempts.len() >= 2 {
